@@ -778,3 +778,53 @@ def _ancestors(node, stop):
         out.append(p)
         p = getattr(p, '_parent', None)
     return out
+
+
+def greedy_group_splits(ctx, rule, entries):
+    """A decode branch that cuts "p:<a><sep><b>" with ONE regex: when the first group is greedy and can itself match the
+    separator, the engine cuts at the LAST separator.  The writers put the free text last (x:<type>:<data>, type names
+    have no colon, the data may), so such a regex moves part of the payload into the first field."""
+    try:
+        import re._parser as sre
+        import re._constants as sre_c
+    except ImportError:                      # pragma: no cover
+        import sre_parse as sre
+        import sre_constants as sre_c
+    n = 0
+    for e in entries:
+        if e.pred != 'regex' or 'XStr' not in e.builds:
+            continue
+        name, rc, pr = e.regex
+        try:
+            items = list(sre.parse(rc.pattern, rc.flags))
+        except Exception as ex:
+            ctx.error(rule, '%s: %s' % (name, ex))
+            continue
+        groups = [(i, av) for i, (op, av) in enumerate(items) if op is sre_c.SUBPATTERN]
+        if len(groups) < 2:
+            continue
+        (i1, g1), (i2, g2) = groups[0], groups[1]
+        between = items[i1 + 1:i2]
+        if not (len(between) == 1 and between[0][0] is sre_c.LITERAL):
+            continue
+        n += 1
+        sep = between[0][1]
+        sub = list(g1[3])
+        greedy_any = len(sub) == 1 and sub[0][0] is sre_c.MAX_REPEAT and sub[0][1][1] == sre_c.MAXREPEAT
+        try:
+            body = pr._seq(sub, ())
+            has_sep = L.find_common(body, L.rcat(L.rany_star(), L.rlit(chr(sep)), L.rany_star())) is not None
+        except Exception as ex:
+            ctx.error(rule, '%s: first group not modelled (%s)' % (name, ex))
+            continue
+        where = '%s:%d' % (FJ, e.node.lineno)
+        if greedy_any and has_sep:
+            ctx.violation(rule, '%s::%s' % (FJ, name), rc.pattern,
+                          'the JSON value "x:text:a%sb" (an extended string whose DATA contains %r -- a URL, a time, "n:1"): the greedy '
+                          'first group runs to the LAST %r, so the value decodes to XStr(\'text:a\', \'b\') instead of '
+                          'XStr(\'text\', \'a%sb\')' % (chr(sep), chr(sep), chr(sep), chr(sep)),
+                          '%s cuts type and data at the last %r: its first group is greedy and can match %r itself'
+                          % (name, chr(sep), chr(sep)), file=FJ, line=e.node.lineno, engine='E3')
+        else:
+            ctx.ob(rule, '%s: the first field cannot swallow the separator %r' % (name, chr(sep)), True, where)
+    ctx.count('regex-split XStr decode branches', n)
